@@ -442,6 +442,64 @@ theorem lltsaProblem_translate (hN : (N : K) ≠ 0) {W : Mat N N K} (hW : ∀ r 
     lltsaProblem W (fun r j => F r j + t j) = lltsaProblem W F := by
   rw [lltsa_returns hW, lltsa_returns hW, fullForm_centredForm_translate hN, fullForm_centering_translate hN]
 
+/-! ### LLTSA: from `H W H` to the alignment matrix proper (`W = Align + shift · 1`) -/
+
+/-- the regularised alignment matrix `W = Align + shift · 1` (`Align` symmetric, `Align 1 = 0`) acts on the centred
+    features as `Align + shift · H` (any `N`) -/
+theorem centredForm_align {Al : Mat N N K} (shift : K) (hAl : ∀ r c, Al r c = Al c r)
+    (h0 : ∀ r, rowSums Al r = 0) :
+    centredForm (fun r c => Al r c + (if r = c then shift else 0))
+      = fun r c => Al r c + shift * centering r c := by
+  have hσ : ∀ r, rowSums (fun r c => Al r c + (if r = c then shift else 0)) r = shift := by
+    intro r
+    have h := h0 r
+    rw [rowSums_apply] at h
+    simp only [rowSums_apply, Finset.sum_add_distrib, Finset.sum_ite_eq, Finset.mem_univ, if_true, h, zero_add]
+  have hW : ∀ r c, (fun r c => Al r c + (if r = c then shift else 0)) r c
+      = (fun r c => Al r c + (if r = c then shift else 0)) c r := by
+    intro r c
+    simp only [hAl r c, eq_comm]
+  rw [centredForm_of_const_eigvec hσ hW]
+  funext r c
+  unfold centering
+  split <;> ring
+
+/-- `Fᵀ M F` is linear in `M` -/
+theorem fullForm_add_smul (A B : Mat N N K) (s : K) (F : Mat N D K) (i j : Fin D) :
+    fullForm (fun r c => A r c + s * B r c) F i j = fullForm A F i j + s * fullForm B F i j := by
+  simp only [fullForm_apply, Finset.mul_sum, ← Finset.sum_add_distrib]
+  exact Finset.sum_congr rfl fun r _ => Finset.sum_congr rfl fun c _ => by ring
+
+/-- the LLTSA left-hand form is `Fᵀ Align F + shift · Fᵀ H F` -/
+theorem lltsa_pencil_align_eq {Al : Mat N N K} (shift : K) (hAl : ∀ r c, Al r c = Al c r)
+    (h0 : ∀ r, rowSums Al r = 0) (F : Mat N D K) (i j : Fin D) :
+    fullForm (centredForm (fun r c => Al r c + (if r = c then shift else 0))) F i j
+      = fullForm Al F i j + shift * fullForm centering F i j := by
+  rw [centredForm_align shift hAl h0, fullForm_add_smul]
+
+/-- same eigenvectors, eigenvalues shifted by `shift` -/
+theorem lltsa_solves_alignment_eq {Al : Mat N N K} (shift : K) (hAl : ∀ r c, Al r c = Al c r)
+    (h0 : ∀ r, rowSums Al r = 0) (F : Mat N D K) (p : Vec D K) (μ : K)
+    (hp : (Mat.toM (fullForm (centredForm (fun r c => Al r c + (if r = c then shift else 0))) F)).mulVec p
+      = μ • (Mat.toM (fullForm centering F)).mulVec p) :
+    (Mat.toM (fullForm Al F)).mulVec p = (μ - shift) • (Mat.toM (fullForm centering F)).mulVec p := by
+  have hM : Mat.toM (fullForm (centredForm (fun r c => Al r c + (if r = c then shift else 0))) F)
+      = Mat.toM (fullForm Al F) + shift • Mat.toM (fullForm centering F) := by
+    ext i j
+    simp only [Mat.toM_apply, Matrix.add_apply, Matrix.smul_apply, smul_eq_mul]
+    exact lltsa_pencil_align_eq shift hAl h0 F i j
+  rw [hM, Matrix.add_mulVec, Matrix.smul_mulVec] at hp
+  rw [sub_smul, ← hp, add_sub_cancel_right]
+
+/-- a non-trivial instance: `Align = [[1,−1],[−1,1]]` (symmetric, zero row sums) -/
+def alignEx : Mat 2 2 ℚ := fun r c => if r = c then 1 else -1
+
+theorem alignEx_symm : ∀ r c, alignEx r c = alignEx c r := by decide
+
+theorem alignEx_rowSums : ∀ r, rowSums alignEx r = 0 := by
+  rw [Fin.forall_fin_two]
+  constructor <;> simp [rowSums_apply, Fin.sum_univ_two, alignEx]
+
 theorem two_fullForm_symm {W : Mat N N K} (hW : ∀ r c, W r c = W c r) (F : Mat N D K) (i j : Fin D) :
     (fun i j => 2 * fullForm W F i j) i j = (fun i j => 2 * fullForm W F i j) j i := by
   show 2 * fullForm W F i j = 2 * fullForm W F j i
